@@ -24,7 +24,7 @@ func c02Shapes() []MemShape {
 		}
 	}
 	// absolute
-	for _, d := range []int64{0, 1, 0x7f, 0x80, 0xff, 0x100, 0x0ff0, 0x7fff, 0x8000, 0xffff, 0x10000, 0x12345678, 0x7fffffff, 0x80000000, 0xfee00000, 0xffffffff} {
+	for _, d := range []int64{0, 1, 0x7f, 0x80, 0xff, 0x100, 0x0ff0, 0x7fff, 0x8000, 0xffff, 0x10000, 0x12345678, 0x7fffffff, 0x80000000, 0xfee00000, 0xffffffff, -1, -2, -128, -129, -0x8000} {
 		s = append(s, MemShape{ASize: 0, Base: -1, Index: -1, Disp: d, HasDisp: true})
 	}
 	// 32-bit
